@@ -92,7 +92,7 @@ func c20WriteCatalogue(dir string, rels []c20Rel) {
 				fmt.Sprintf("https://api.github.com/repos/coreruleset/crs-toolchain/releases/assets/%d", id),
 				fmt.Sprintf("https://github.com/coreruleset/crs-toolchain/releases/download/%s/%d/%s", tag, id, name)})
 		}
-		base := int64(1000 + 20*i)
+		base := int64(1000 + 30*i)
 		sums := ""
 		// assets that are not for this platform: another OS, another architecture, the Windows zip
 		// (it carries crs-toolchain.exe), a package with this platform's name in it. All are listed
@@ -106,6 +106,8 @@ func c20WriteCatalogue(dir string, rels []c20Rel) {
 				{fmt.Sprintf("crs-toolchain_%s_windows_amd64.zip", r.Version), c20Zip([]byte("MZ windows binary " + r.Version))},
 				{fmt.Sprintf("crs-toolchain_%s_linux_arm64.tar.gz", r.Version), c20Archive([]byte("other architecture binary "+r.Version), false)},
 				{fmt.Sprintf("crs-toolchain_%s_linux_amd64.deb", r.Version), []byte("!<arch>\ndebian-binary " + r.Version)},
+				{fmt.Sprintf("crs-toolchain_%s_linux_386.tar.gz", r.Version), c20Archive([]byte("32-bit binary "+r.Version), false)},
+				{fmt.Sprintf("crs-toolchain_%s_linux_amd64p32.tar.gz", r.Version), c20Archive([]byte("amd64p32 binary "+r.Version), false)},
 			} {
 				add(base+4+int64(j), o.name, o.content)
 				h := sha256.Sum256(o.content)
